@@ -74,6 +74,20 @@ def gen_cases(tier, seed):
             continue
         cases.append({"id": "GP/%s/%s/%s/%s" % (kind, pos, state, "".join(map(str, gap))), "kind": kind, "pos": pos, "rgpos": ["first", "later"][k % 2], "state": state,
                       "nrg": 5, "mode": "append", "seed": 2300 + k, "rows": 20, "removed_before": gap})
+    # write_row_groups(..., sort_key=f) where f raises for the new row groups (say, a key on statistics they do not carry): a refused
+    # operation; the handle is then used again
+    for state, rows in itertools.product(["hive", "hive_part"], [6, 40]):
+        k += 1
+        cases.append({"id": "SK/%s/%d" % (state, rows), "kind": "append_sort_key_raises", "pos": "middle", "rgpos": "later", "state": state, "nrg": 2, "mode": "append",
+                      "seed": 3100 + k, "rows": 16, "new_rows": rows, "reuse_handle": True})
+    # the existing dataset is a bare directory of part files (its _metadata / _common_metadata are gone, as in datasets other tools wrote or
+    # pruned): what the directory holds IS the dataset, so whatever a refused append leaves in it is a change of the dataset
+    for kind, pos, rgpos, state in itertools.product(["append_unencodable_value", "none_in_required", "append_diff_columns", "unknown_codec"], ["first", "last"], ["first", "later"], ["hive", "hive_part"]):
+        k += 1
+        if kind not in KINDS:
+            continue
+        cases.append({"id": "NM/%s/%s/%s/%s" % (kind, pos, rgpos, state), "kind": kind, "pos": pos, "rgpos": rgpos, "state": state, "nrg": 3, "mode": "append",
+                      "seed": 2900 + k, "rows": 18, "no_summary": True})
     rng = np.random.default_rng([seed, 1818])
     for i in range(150 if tier == "quick" else 3000):
         cases.append({"id": "R/%d/%d" % (seed, i), "kind": KINDS[int(rng.integers(0, len(KINDS)))],
@@ -211,6 +225,10 @@ def run_case(case):
             if rgs_:
                 pf_.remove_row_groups(rgs_)
                 counters["datasets_with_removed_row_groups"] = 1
+        if case.get("no_summary"):
+            for nm_ in ("_metadata", "_common_metadata"):
+                os.remove(os.path.join(path, nm_))
+            counters["datasets_without_a_summary_file"] = 1
         before_tab = fastparquet.ParquetFile(path).to_pandas(index=False)
         before_schema = list(fastparquet.ParquetFile(path).schema.schema_elements)
         before_files = fsmon.snapshot(path)
@@ -248,7 +266,7 @@ def run_case(case):
                         nn_[n_new - 1] = case["big_value"]
                         new["n"] = nn_
                         counters["int32_object_overflows_tried"] = 1
-                    bad, kw = make_bad(case, new, rng) if not kind.startswith(("append_iterable_", "int32_object_", "remove_with_")) else (new, {})
+                    bad, kw = make_bad(case, new, rng) if not kind.startswith(("append_iterable_", "int32_object_", "remove_with_", "append_sort_key_")) else (new, {})
                     kws = dict(base_kw)
                     kws.update(kw)
                     if case["mode"] == "append":
@@ -278,6 +296,10 @@ def run_case(case):
                         counters["appends_from_iterables"] = 1
                         kept = fastparquet.ParquetFile(path)       # (used again after the refusal, see reuse_handle)
                         kept.write_row_groups(frames_())
+                    elif kind == "append_sort_key_raises":
+                        kept = fastparquet.ParquetFile(path)
+                        counters["appends_whose_sort_key_raises"] = 1
+                        kept.write_row_groups(new, sort_key=lambda rg: rg.columns[0].meta_data.statistics.min_value + b"")
                     elif case.get("reuse_handle"):
                         kept = fastparquet.ParquetFile(path)
                         bad_r = bad.reset_index(drop=True)
@@ -403,4 +425,4 @@ def run_case(case):
 
 
 def required(tier):
-    return {"rejected": 300, "snapshots_compared": 300, "datasets_with_removed_row_groups": 20, "appends_from_iterables": 12, "int32_object_overflows_tried": 10, "footers_validated_after_followup": 10, "removals_naming_an_unknown_row_group": 3}
+    return {"rejected": 300, "snapshots_compared": 300, "datasets_with_removed_row_groups": 20, "appends_from_iterables": 12, "int32_object_overflows_tried": 10, "footers_validated_after_followup": 10, "removals_naming_an_unknown_row_group": 3, "datasets_without_a_summary_file": 10, "appends_whose_sort_key_raises": 3}
